@@ -252,7 +252,7 @@ def rule_c(ck, R, ser_des):
                 if is_ser:
                     X = ('f', ('&', ('f', ('&', ('v', 'v')), 'value')), member)
                     stores = [e for e in p.calls() if e.name.startswith('bf_set_')]
-                    cls = fclass.classes_of_path(p.cond_terms(), X)
+                    cls = fclass.classes_of_path(p.cond_terms(), X, width)
                     if stores:
                         ok_classes |= cls
                         if p.ret != C(1):
@@ -265,7 +265,7 @@ def rule_c(ck, R, ser_des):
                         bad_store = 'no load of the stored value'
                         continue
                     X = refs[0].result
-                    cls = fclass.classes_of_path(p.cond_terms(), X)
+                    cls = fclass.classes_of_path(p.cond_terms(), X, width)
                     if p.ret is not None and p.ret != C(0):
                         ok_classes |= cls
             want = {'zero', 'normal'}
